@@ -333,6 +333,9 @@ def generate(tier):
     for ea in ([[('parse_err_ty', 'PErr')]], [[('parse_err_fn', 'perr')]]):
         cs.add('EnumString', cs.enum('EnumString', base_variants('EnumString'), eattrs=ea), 'R9-half-parse-err', 'reject')
     cs.add('EnumString', cs.enum('EnumString', base_variants('EnumString'), eattrs=[[('parse_err_ty', 'PErr'), ('parse_err_fn', 'perr')]]), 'control-parse-err', 'accept')
+    # the values are paths / types: generic arguments, turbofish and module paths are legal
+    cs.add('EnumString', cs.enum('EnumString', base_variants('EnumString'), eattrs=[[('parse_err_ty', 'PErrG<u8>'), ('parse_err_fn', 'perr_g::<u8>')]]), 'control-parse-err-generic', 'accept')
+    cs.add('EnumString', cs.enum('EnumString', base_variants('EnumString'), eattrs=[[('parse_err_fn', 'errs::perr')], [('parse_err_ty', 'errs::PErr')]]), 'control-parse-err-path', 'accept')
     # R10 unsupported property literals
     for kind, text in (('f', '1.5'), ('c', "'c'"), ('y', "b'x'"), ('Y', 'b"xy"'), ('f', '2e3')):
         for pos in positions:
